@@ -32,6 +32,11 @@ def run(ctx, crate):
     rule_slot_identity(ctx, crate)
     rule_head_only_reap(ctx, crate)
     D.rule_finished_draws_forced(ctx, crate)
+    D.rule_rows_newtype(ctx, crate)
+    D.rule_width_source(ctx, crate)
+    from .c03 import rule_row_transfer_pairing
+    rule_row_transfer_pairing(ctx, crate)
+    rule_multi_arm_unconditional(ctx, crate)
 
 
 def rule_multi_exclusive(ctx, crate, rule="R-MULTI-EXCLUSIVE"):
@@ -324,3 +329,29 @@ def rule_head_only_reap(ctx, crate, rule="R-MULTI-HEAD-REAP"):
         zs = [(i, s) for i, j, s in m.assigns() if [f[2] for f in place_fields(s["lhs"])][-1:] == ["is_zombie"]]
         ctx.check(bool(zs) and all(is_const(s["rv"].get("op"), True) for i, s in zs), rule, "mark_zombie-sets-flag", m.name, K.fn_loc(m),
                   "a non-head dropped bar is flagged is_zombie = true", "a non-head dropped bar is not flagged as zombie (it is never reaped)", cfg)
+
+
+def rule_multi_arm_unconditional(ctx, crate, rule="R-MULTI-MEMBER-REFRESH"):
+    """A member bar's stored rendering is refreshed on every draw request, before the MultiProgress limiter decides:
+    drawable()'s Multi arm builds Drawable::Multi on every path and consults no limiter. Otherwise a rate-limited
+    update of bar A is lost and the next frame (requested by bar B) shows A's stale rendering."""
+    cfg = crate.config
+    b = D.drawable_fn(ctx, crate, rule)
+    if not b:
+        return
+    cons = {i for (cb, i, j, s) in K.constructions(crate, K.DRAWABLE, "Multi") if cb.name == b.name}
+    n = 0
+    for vs, reg, sb, pl in K.variant_regions(b, crate, D.TARGETKIND):
+        if vs != {"Multi"}:
+            continue
+        n += 1
+        t = b.term(sb)
+        tgt = [tb for tb, vv in K.edge_variants(crate, t, D.TARGETKIND).items() if vv == {"Multi"}][0]
+        ok = bool(cons) and b.must_pass([tgt], cons)
+        gate = [c for bb in reg for c in [b.term(bb)] if c and c["k"] == "call" and K.Call(b, bb, c).matches(D.ALLOW, K.PDT_DRAWABLE, r"multi::MultiState::draw")]
+        calls_in = [K.Call(b, bb, b.term(bb)) for bb in reg if b.term(bb) and b.term(bb)["k"] == "call"]
+        limiter = [c.path for c in calls_in if c.callee.get("local") and (D.ALLOW.replace("\\", "") in c.path or "allow" in K.meth(c.path) or K.deep_has_call(crate, crate.bodies[c.path].slice([0]) if c.path in crate.bodies else b.slice([0]), D.ALLOW, K.PDT_DRAWABLE))]
+        ctx.check(ok and not limiter, rule, "multi-arm-always-builds", b.name, "%s:%d" % (b.file, t.get("line", 0)),
+                  "the Multi arm of drawable() always yields Drawable::Multi and consults no limiter (the member rendering is refreshed before the MultiProgress decides)",
+                  "the Multi arm of drawable() can return None / consults a limiter (%s): a skipped update of one bar is lost for frames requested by other bars" % (limiter or "early None"), cfg)
+    ctx.floor(rule, n, 1, cfg, "TargetKind::Multi arms in drawable()")
